@@ -10,6 +10,19 @@ def add(i, level, technique, text, note, ref):
 
 exec(open(os.path.join(V, "scripts", "manifest_table.py")).read())
 
+# second pass over every driver (DESIGN.md section 11.5): the same bounded-exhaustive technique over further input dimensions
+WIDENED = (" Second pass (DESIGN.md 11.5): the alphabet was widened along a ten-point checklist -- capacity classes of every slice argument with dirty spare bytes, "
+           "ownership of results, argument layout in one record, constructor arguments overwritten by the caller, input integrity and repeatability (also after a failing call), "
+           "ordered pairs/triples of operations on one object and on process-wide state, every length/residue class and threshold of inner primitives, every accepted variant and "
+           "rarely used exported entry point, boundary values of every field, degenerate branches driven by scripted randomness or constructed inputs -- each family enumerated "
+           "exhaustively over its stated alphabet with the same reference oracles, and shown to fail on a scratch mutant (mutants/, seeded/).")
+for i, c in CHECKS.items():
+    if i not in ("C13", "C20"):
+        c["text"] += WIDENED
+CHECKS["C13"]["text"] += (" The DER alphabet additionally contains every content length of every primitive (prefix and suffix truncations with ancestor lengths fixed up), malformed BER end-of-contents at every nesting level, "
+                          "and the replacement of every OBJECT IDENTIFIER by every entry of a 70-entry dictionary of algorithm/curve/digest/content-type identifiers; seeds cover every accepted curve and Ed25519.")
+CHECKS["C20"]["text"] = CHECKS["C20"]["text"].replace("For eleven scenarios", "For thirty scenarios (the original eleven, SM9 user keys and key issuing during first use, key generation on singletons, and since the seeded changes: independent single-owner objects of every primitive on two threads - S17-S22 - and first use of each package-level singleton by two threads - S23a-e; one worker process per case with a cold first execution)")
+
 props = [json.loads(l) for l in open(os.path.join(V, "properties.jsonl"))]
 checks, na = [], []
 for p in props:
